@@ -437,6 +437,53 @@ pub fn c05_lang(out: &mut dyn Write, tier: &str, rng: &mut Rng, st: &mut Stats) 
     }
 }
 
+/// the language forms of the quantifiers: `exists/forall v, … # body` at the root and nested, with
+/// listed variables that are repeated, absent from the body, bound again inside, or that reach the
+/// body only through the iterate of an enclosing fixed point
+pub fn c04_lang(out: &mut dyn Write, tier: &str, rng: &mut Rng, st: &mut Stats) {
+    let n = if tier == "thorough" { 30000 } else { 2500 };
+    for i in 0..n {
+        let k = 2 + rng.below(3) as usize;
+        let mut names: Vec<String> = Vec::new();
+        while names.len() < k { let n = rng.pick(&NAME_POOL[..6]).to_string(); if !names.contains(&n) { names.push(n); } }
+        let gf = if i % 3 == 0 {
+            // fix X # base op (Q vs # (X op' side)): the listed variables occur in the body only inside the iterate
+            let x = names[0].clone();
+            let v = names[1].clone();
+            let w = names[names.len() - 1].clone();
+            let mut g = Gen { rng, names: names.clone(), allow_fix: false, big_consts: false, max_list: 2 };
+            let mut p = Pol::new();
+            p.insert(x.clone(), 1);
+            let mut pq = p.clone();
+            pq.remove(&v);
+            let side = if g.rng.chance(1, 2) { GF::Var(w.clone()) } else { g.gen(1, &pq) };
+            let inner = if g.rng.chance(1, 3) { GF::Var(x.clone()) } else { GF::Bin(g.rng.below(2) as u8, Box::new(GF::Var(x.clone())), Box::new(side)) };
+            let mut vs = vec![v.clone()];
+            if g.rng.chance(1, 3) { vs.insert(0, w.clone()); }
+            if g.rng.chance(1, 4) { vs.push(v.clone()); }
+            let q = GF::Quant(g.rng.chance(1, 2), vs, Box::new(inner));
+            let base = if g.rng.chance(1, 2) { GF::Bin(g.rng.below(2) as u8, Box::new(GF::Var(v.clone())), Box::new(GF::Var(w.clone()))) } else { g.gen(1, &p) };
+            let body = GF::Bin(g.rng.below(2) as u8, Box::new(base), Box::new(q));
+            st.hit("lang.quant-over-iterate");
+            GF::Fix(x, g.rng.chance(1, 2), Box::new(body))
+        } else {
+            let depth = 1 + rng.below(3) as u32;
+            let mut g = Gen { rng, names: names.clone(), allow_fix: i % 5 == 0, big_consts: false, max_list: 3 };
+            let body = g.gen(depth, &Pol::new());
+            // the list: any names of the pool, in any order, with repeats and names the body does not mention
+            let m = 1 + g.rng.below(3) as usize;
+            let vs: Vec<String> = (0..m).map(|_| if g.rng.chance(1, 5) { g.rng.pick(&NAME_POOL[..8]).to_string() } else { g.rng.pick(&names[..]).clone() }).collect();
+            let q = GF::Quant(g.rng.chance(1, 2), vs, Box::new(body));
+            st.hit("lang.quant-root");
+            if g.rng.chance(1, 3) { GF::Bin(g.rng.below(8) as u8, Box::new(GF::Var(names[0].clone())), Box::new(q)) } else { q }
+        };
+        count_kinds(&gf, st);
+        let text = Printer { rng, noise: false }.print(&gf);
+        let line = eval_line("C04", &gf, &text, st);
+        writeln!(out, "{}", line).unwrap();
+    }
+}
+
 pub fn c01(out: &mut dyn Write, tier: &str, rng: &mut Rng, st: &mut Stats) {
     corpus_eval("C01", "C01", out, st);
     let n = if tier == "thorough" { 40000 } else { 3000 };
